@@ -245,6 +245,14 @@ def run(ctx):
                 sample_tr=(24, ctx.seed) if quick else (6, ctx.seed))
     ctx.add_mc(g, "GEN TtxAssembly")
     run_set(ctx, drv, g.tr, lib, tab, "Gen_TtxAssembly")
+    # long random behaviours of the same model (14 packets): retransmissions of stored pages, early termination by the
+    # other magazine in serial mode, several versions of a page - histories the bounded cover is too short for
+    n_sim = 1000 if quick else 20000
+    s = tlc.run("Gen_TtxAssembly", "Gen_TtxAssembly_sim", timeout=1200, collect_tr=True, heap="8g", simulate=max(20, n_sim // 100), depth=16,
+                seed=ctx.seed, workers=8, max_tr=n_sim)      # independent random behaviours: any n_sim of them will do
+    ctx.add_mc(s, "SIM TtxAssembly (depth 14)")
+    run_set(ctx, drv, s.tr, lib, tab, "Sim_TtxAssembly")
+    ctx.notes.append("simulated behaviours replayed: %d" % len(s.tr))
     ctx.cov["exhaustive"] = False
     ctx.notes.append("behaviours printed by TLC: %d, replayed: %d" % (g.n_tr, len(g.tr)))
 
